@@ -65,14 +65,17 @@ def check_dist(d, ref, stats, rnd, key_seed):
         V.append(dict(clause="reset_does_not_replay"))
     pj = jax.jit(type(d).sample_pure, static_argnums=1)
     dj, a3 = pj(d.reset(k), 6)
-    if not onp.allclose(onp.asarray(a3), a1, rtol=0, atol=1e-7):
+    if not onp.allclose(onp.asarray(a3), a1, rtol=3e-6, atol=3e-6 * max(float(onp.abs(a1).max()), 1e-9)):  # jit vs eager may differ by float32 rounding (fused ops), not more
         V.append(dict(clause="jit_sample_differs_from_eager", eager=a1.tolist(), jit=onp.asarray(a3).tolist()))
     if kind in ("norm", "mix") and ref.get("stochastic"):
         # consecutive batches come from a moving stream
         d_a, s_a = d.reset(k).sample((6,))
         d_b, s_b = d_a.sample((6,))
-        if onp.array_equal(onp.asarray(s_a), onp.asarray(s_b)):
+        # (samples that are all clipped to 0 -- mean far below 0 -- are legitimately identical)
+        if onp.array_equal(onp.asarray(s_a), onp.asarray(s_b)) and (onp.asarray(s_a) > 0).any():
             V.append(dict(clause="consecutive_samples_identical"))
+        if onp.array_equal(onp.asarray(d_a.rng), onp.asarray(d_b.rng)):
+            V.append(dict(clause="consecutive_samples_same_rng_state"))
         # batch statistics: mean within 7 sigma/sqrt(n) of the clipped mean (loose sanity of 'sampled from the configured distribution')
     # ---- quantiles
     qs = [0.005, 0.01, 0.1, 0.25, 0.5, 0.75, 0.9, 0.99, 0.995]
